@@ -14,7 +14,7 @@ from ..model import sem, gen, flat, render
 PROPERTY = "C03"
 LEVEL = "exploration"
 RULE = ("stateful (RuleBasedStateMachine): one object with scalar fields a,b (rand), c (non-rand), d (rand), a rand_attr "
-        "sub-object s1.x, an attr (non-random) sub-object s2.y, a non-random list nl used in 'in', a mutable vsc.rangelist "
+        "sub-object s1.x, an attr (non-random) sub-object s2.y / s2.z (enum), a non-random enum field e, a non-random list nl used in 'in', a mutable vsc.rangelist "
         "member; generated class constraints over all of them.  Rules: assign any field; toggle rand_mode of a declared-"
         "random scalar; replace the rangelist content; append/assign the list; obj.randomize(); obj.randomize_with(inline); "
         "vsc.randomize(obj); vsc.randomize_with(obj); free-standing vsc.randomize(f..)/vsc.randomize_with(f..) over a "
@@ -37,11 +37,20 @@ FIELDS = [
     {"name": "s1.x", "kind": "bit", "w": 3, "signed": False, "rand": True, "init": 0},
     {"name": "s2.y", "kind": "bit", "w": 3, "signed": False, "rand": True, "init": 3},   # declared rand, but s2 is attr()
     {"name": "q[0]", "kind": "bit", "w": 2, "signed": False, "rand": True, "init": 0},    # element of a fixed-size random list
+    # enum-typed constants: declared non-random / declared random inside the non-random sub-object
+    {"name": "e", "kind": "enum", "w": 32, "signed": True, "rand": False, "enum": "E1", "dom": [0, 1, 5], "init": 1},
+    {"name": "s2.z", "kind": "enum", "w": 32, "signed": True, "rand": True, "enum": "E1", "dom": [0, 1, 5], "init": 5},
 ]
+ENUMS = {"E1": {"int": True, "members": [["A", 0], ["B", 1], ["C", 5]]}}
 TOGGLE = ["a", "b", "d", "s1.x"]
 ASSIGNABLE = [f for f in FIELDS]
 
 CLASS_SRC = '''
+class E1(enum.IntEnum):
+    A = 0
+    B = 1
+    C = 5
+
 @vsc.randobj
 class S1(object):
     def __init__(self):
@@ -51,6 +60,7 @@ class S1(object):
 class S2(object):
     def __init__(self):
         self.y = vsc.rand_bit_t(3)
+        self.z = vsc.rand_enum_t(E1)
 
 @vsc.randobj
 class T(object):
@@ -59,6 +69,7 @@ class T(object):
         self.b = vsc.rand_int_t(3)
         self.c = vsc.bit_t(3)
         self.d = vsc.rand_bit_t(2)
+        self.e = vsc.enum_t(E1)
         self.s1 = vsc.rand_attr(S1())
         self.s2 = vsc.attr(S2())
         self.nl = vsc.list_t(vsc.bit_t(3))
@@ -81,7 +92,7 @@ def types():
 
 @hyp.composite
 def programs(d):
-    g = gen.G(d, FIELDS, {}, mul_max_w=3)
+    g = gen.G(d, FIELDS, ENUMS, mul_max_w=3)
     stmts = [g.field_stmt(1) for _ in range(d.randint(1, 3))]
     extra = []
     if d.chance(70):
@@ -154,13 +165,18 @@ class Session:
         self.obj = self.ns["T"]()
         self.val = {}
         for f in FIELDS:
-            setp(self.obj, f["name"], f["init"])
+            self.setf(f["name"], f["init"])
             self.val[f["name"]] = f["init"]
         self.mode = {k: True for k in TOGGLE}
         self.rl = [[0, 7]]
         self.nl = [1]
         self.obj.nl.append(1)
         self.info = {"edits_between_calls": 0, "calls": 0, "solsets": set(), "pending_edit": False}
+
+    def setf(self, key, v):
+        if self.types[key]["kind"] == "enum":
+            v = self.ns[self.types[key]["enum"]](v)
+        setp(self.obj, key, v)
 
     # -- reference ---------------------------------------------------------------------------
     def class_stmts(self):
@@ -199,7 +215,7 @@ class Session:
         k = op[0]
         vsc = self.vsc
         if k == "assign":
-            setp(self.obj, op[1], op[2])
+            self.setf(op[1], op[2])
             self.val[op[1]] = op[2]
             self.info["pending_edit"] = True
             return []
@@ -317,7 +333,7 @@ class Session:
 def inline_strategy(d, keys):
     # free-standing calls over field subsets (keys given) name scalar fields only: a list element of an unpassed list
     # as a constant operand runs into unfinished library paths (noted in DESIGN.md section 7, not a C03 subject)
-    g = gen.G(d, [f for f in FIELDS if keys is None or "[" not in f["name"]], {}, mul_max_w=3)
+    g = gen.G(d, [f for f in FIELDS if keys is None or "[" not in f["name"]], ENUMS, mul_max_w=3)
     return [g.field_stmt(0) for _ in range(d.randint(1, 2))]
 
 
